@@ -297,6 +297,7 @@ class RelInner(LoopSpec):
     def run_while(self, E, st, fr, cx):
         gh = self.gh
         unknown = self._check_modifies(st)
+        unknown = [n for n in unknown if n not in self._iteration_temporaries(st, fr, unknown)]
         lab = self._label(fr, st)
         carried = {
             'curr_t': cx.fresh('curr_t'), 'curr_y': cx.fresh('curr_y', TS), 'curr_extra': cx.fresh('curr_extra', XS)}
